@@ -197,7 +197,7 @@ static int parse_complex(vnacal_load_state_t *vlsp,
 	*result = value1 * I;
 	break;
     case 6:	/* number number j */
-	*result = value1 + value2 * I;
+	*result = CMPLX(value1, value2);	/* keeps -0.0 and infinities */
 	break;
     case 12:	/* +j */
 	*result = I;
